@@ -181,3 +181,6 @@ func TestC11SharedPrepared(t *testing.T) {
 func TestC11SharedPool(t *testing.T) {
 	RunProp(t, "C11", "shared-pool", func(rt *rapid.T) PoolCase { c := genPoolCase(rt); c.Conc = true; return c }, checkC20)
 }
+
+func TestC03Multi(t *testing.T) { RunProp(t, "C03", "interleaved-readers", genMultiReadCase, checkC03Multi) }
+func TestC01Multi(t *testing.T) { RunProp(t, "C01", "interleaved-readers", genMultiReadCase, checkC03Multi) }
